@@ -2,7 +2,7 @@
    `exact <lemma>` and followed by Print Assumptions; the checks read this file's compile
    log.  Statements are never weakened: a statement that cannot be proved stays visible
    under a `_partial` twin (see DESIGN.md section 9). *)
-From Coq Require Import List String Ascii Bool Permutation.
+From Coq Require Import List String Ascii Bool Permutation Lia.
 Import ListNotations.
 From DI Require Import Syntax Tokens Bounds Param Subs Superset Substitute Spec RustSem Group Search Gen GenMain Validate IMap Hygiene Dispatch Examples ExamplesGroup ExamplesF16.
 From DI.proofs Require Import Basics SupersetSound SupersetExact SupersetComplete SupersetWf SubstituteProofs SubstituteSpec BoundsProofs DispatchProofs GroupProofs SearchProofs SearchFlat SearchNested FlatSemantics FlatConcrete GenProofs GenMainProofs ParamProofs ParamAlpha ParamCanon RustSemProofs ValidateProofs IMapProofs HygieneProofs.
@@ -356,6 +356,55 @@ Theorem C05_selected_perm : forall (Q V : Type) keyvals (ms ms' : list (member Q
   Permutation (selected Q V keyvals ms q) (selected Q V keyvals ms' q).
 Proof. exact selected_perm. Qed.
 Print Assumptions C05_selected_perm.
+
+(* for FLAT families (n blocks with one header, one key bound, pairwise non-unifiable
+   payloads) the order is immaterial at full strength, on the concrete block terms: written
+   in any other order (sigma, with inverse tau) the blocks are accepted as one family as well,
+   and the generated main impl covers exactly the same queries, in every world *)
+Theorem C05_flat_family_order_independent :
+  forall (W : world) (tr self B TR : term) (a : string) (n : nat) (names : nat -> list string)
+         (T p items : nat -> term) (sigma tau : nat -> nat),
+  let blk := fun i => flat_block (names i) tr self B (T i) (items i) in
+  let blk' := fun i => blk (sigma i) in
+  let Hd := Node (K "GroupId" "") [tr; self] in
+  0 < n -> NoDup (map blk (seq 0 n)) -> cwf [] Hd = true ->
+  (forall i, i < n -> path_bindings (T i) = [(a, p i)]) ->
+  (forall i j, i < n -> j < n -> tb_eqb (T i) (T j) = true) ->
+  (forall i, i < n -> trait_ref (T i) = TR) ->
+  (forall rho, is_sized_path (apply rho TR) = false) ->
+  (forall i j, i < n -> j < n -> i <> j -> sup (p i) (p j) = None) ->
+  (forall i, i < n -> sigma i < n) ->
+  (forall j, j < n -> tau j < n /\ sigma (tau j) = j) ->
+  (forall i j, i < n -> j < n -> sigma i = sigma j -> i = j) ->
+  forall fuel, n < fuel ->
+    (exists g, search fuel (map blk (seq 0 n)) = Some [(Hd, (g, seq 0 n))]) /\
+    (exists g', search fuel (map blk' (seq 0 n)) = Some [(Hd, (g', seq 0 n))]) /\
+    forall q,
+      main_applies term term (keyvals W Hd B TR a) (map (member_of W Hd blk p) (seq 0 n)) q = true <->
+      main_applies term term (keyvals W Hd B TR a)
+                   (map (member_of W Hd blk' (fun i => p (sigma i))) (seq 0 n)) q = true.
+Proof. intros. apply (flat_family_order_independent W tr self B TR a n names T p items sigma tau); assumption. Qed.
+Print Assumptions C05_flat_family_order_independent.
+
+(* non-vacuity: the two blocks of C03_flat_blocks_nonvacuous (whose hypotheses are shown there)
+   under the swap of 0 and 1: the swap meets the hypotheses on sigma/tau, and the swapped order
+   is accepted as one family too *)
+Example C05_flat_order_nonvacuous :
+  let tr := osome (path1 "K" anone) in
+  let T := fun i => path1 "D" (aangle [gassoc "G" (tC0 (match i with O => "GA" | _ => "GB" end))]) in
+  let blk := fun i => flat_block [pid "0"] tr (tP "0") (tP "0") (T i) (Node (K "Items" "") []) in
+  let sigma := fun i => match i with O => 1 | _ => 0 end in
+  (forall i, i < 2 -> sigma i < 2) /\ (forall j, j < 2 -> sigma j < 2 /\ sigma (sigma j) = j) /\
+  (forall i j, i < 2 -> j < 2 -> sigma i = sigma j -> i = j) /\
+  option_map (map (fun e => snd (snd e))) (search 9 [blk (sigma 0); blk (sigma 1)]) = Some [[0; 1]].
+Proof.
+  cbv zeta. repeat split.
+  - intros [|[|i]] H; cbn; lia.
+  - destruct j as [|[|j]]; cbn; lia.
+  - destruct j as [|[|j]]; cbn; try reflexivity; lia.
+  - intros [|[|i]] [|[|j]] Hi Hj; cbn; lia.
+Qed.
+Print Assumptions C05_flat_order_nonvacuous.
 
 (* the search itself is NOT independent of the block order (known finding F16): for the same
    three blocks the families it forms are {B0, B2}, {B1} in one order and {B0, B1}, {B2} in
